@@ -128,7 +128,7 @@ func (c *CryptoCodec) Encrypt(hexKey, hexIv string, text []byte) ([]byte, error)
 
 	switch c.mode {
 	case CBC:
-		return c.encryptCBC(block, iv, text), nil
+		return c.encryptCBC(block, iv, text)
 	case CTR:
 		return c.encryptCTR(block, iv, text), nil
 	case GCM:
@@ -139,19 +139,22 @@ func (c *CryptoCodec) Encrypt(hexKey, hexIv string, text []byte) ([]byte, error)
 	return nil, errors.New(c.name, "Unsupported mode: %s", c.mode)
 }
 
-func (c *CryptoCodec) encryptCBC(block cipher.Block, iv, text []byte) []byte {
+func (c *CryptoCodec) encryptCBC(block cipher.Block, iv, text []byte) ([]byte, error) {
 	enc := cipher.NewCBCEncrypter(block, iv)
 
 	padded := text
 	if c.padding != NOPAD {
-		padSize := aes.BlockSize - (len(text) & aes.BlockSize)
+		padSize := aes.BlockSize - (len(text) % aes.BlockSize)
 		padding := bytes.Repeat([]byte{byte(padSize)}, padSize)
 		padded = append(padded, padding...)
+	}
+	if len(padded)%aes.BlockSize != 0 {
+		return nil, errors.New(c.name, "Input length must be a multiple of %d bytes without padding, got %d", aes.BlockSize, len(padded))
 	}
 
 	encrypted := make([]byte, len(padded))
 	enc.CryptBlocks(encrypted, padded)
-	return encrypted
+	return encrypted, nil
 }
 
 func (c *CryptoCodec) encryptCTR(block cipher.Block, iv, text []byte) []byte {
@@ -169,7 +172,7 @@ func (c *CryptoCodec) Decrypt(hexKey, hexIv string, text []byte) ([]byte, error)
 
 	switch c.mode {
 	case CBC:
-		return c.decryptCBC(block, iv, text), nil
+		return c.decryptCBC(block, iv, text)
 	case CTR:
 		return c.decryptCTR(block, iv, text), nil
 	case GCM:
@@ -180,7 +183,10 @@ func (c *CryptoCodec) Decrypt(hexKey, hexIv string, text []byte) ([]byte, error)
 	return nil, errors.New(c.name, "Unsupported mode: %s", c.mode)
 }
 
-func (c *CryptoCodec) decryptCBC(block cipher.Block, iv, text []byte) []byte {
+func (c *CryptoCodec) decryptCBC(block cipher.Block, iv, text []byte) ([]byte, error) {
+	if len(text)%aes.BlockSize != 0 {
+		return nil, errors.New(c.name, "Input length must be a multiple of %d bytes, got %d", aes.BlockSize, len(text))
+	}
 	dec := cipher.NewCBCDecrypter(block, iv)
 
 	decrypted := make([]byte, len(text))
@@ -188,10 +194,16 @@ func (c *CryptoCodec) decryptCBC(block cipher.Block, iv, text []byte) []byte {
 
 	if c.padding != NOPAD {
 		// unpadding
+		if len(decrypted) == 0 {
+			return nil, errors.New(c.name, "Input is empty, padding is not found")
+		}
 		padSize := int(decrypted[len(decrypted)-1])
+		if padSize == 0 || padSize > len(decrypted) {
+			return nil, errors.New(c.name, "Invalid padding size %d", padSize)
+		}
 		decrypted = decrypted[:len(decrypted)-padSize]
 	}
-	return decrypted
+	return decrypted, nil
 }
 
 func (c *CryptoCodec) decryptCTR(block cipher.Block, iv, text []byte) []byte {
